@@ -161,6 +161,21 @@ pub fn generate(prop: &str, rng: &mut Rng, plan: &mut Plan, _index: u64) {
         }
         plan.knobs.batch = "faulty".into();
     }
+    if rng.chance(1, 8) {
+        // a parent with closed standard descriptors (only those no stage inherits)
+        let mut mask = 0u8;
+        if pp.stdin != PStdin::Inherit && rng.chance(2, 3) {
+            mask |= 1;
+        }
+        if pp.stdout != PStdout::Inherit && rng.chance(2, 3) {
+            mask |= 2;
+        }
+        if (pp.stderr_file || matches!(pp.term, Term::Capture | Term::Communicate)) && rng.chance(2, 3) {
+            mask |= 4;
+        }
+        plan.parent.closed_std = mask;
+        plan.parent.files_low = rng.chance(1, 2);
+    }
     plan.body = Body::Pipe(pp);
 }
 
@@ -253,7 +268,7 @@ pub fn run(plan: &Plan, pp: &PipePlan) -> FamOut {
     let c14 = plan.prop == "C14";
     let input = crate::fam_comm::input_bytes(pp.input_len, false);
     let table_before: BTreeMap<i32, usize> = sim().k.proc(PARENT_PID).fds.iter().map(|(fd, e)| (*fd, e.desc)).collect();
-    let boot: Vec<usize> = (0..3).map(|i| desc_of_parent_fd(i).unwrap()).collect();
+    let boot: Vec<Option<usize>> = (0..3).map(|i| desc_of_parent_fd(i)).collect();
     let mut cfg_in: Cfg = Box::new(|p| p);
     let mut cfg_out: Cfg = Box::new(|p| p);
     let mut cfg_err: Cfg = Box::new(|p| p);
@@ -277,7 +292,7 @@ pub fn run(plan: &Plan, pp: &PipePlan) -> FamOut {
                 cfg_in = Box::new(|p| p.stdin(Redirection::Pipe));
             }
         }
-        PStdin::Inherit => want_in = Some(boot[0]),
+        PStdin::Inherit => want_in = boot[0],
     }
     match pp.stdout {
         PStdout::File => {
@@ -295,7 +310,7 @@ pub fn run(plan: &Plan, pp: &PipePlan) -> FamOut {
                 cfg_out = Box::new(|p| p.stdout(Redirection::Pipe));
             }
         }
-        PStdout::Inherit => want_out = Some(boot[1]),
+        PStdout::Inherit => want_out = boot[1],
     }
     if pp.stderr_file {
         let f = mk_file("perr", vec![]);
